@@ -20,7 +20,7 @@ from .json_schema.definitions import JSONSchema
 from .json_schema.request_cls import JSONSchemaRequest
 from .json_schema.schema_model import JSONSchemaBuiltinFormat, JSONSchemaType
 from .load_error import FormatMismatchLoadError, TypeLoadError, ValueLoadError
-from .provider_template import DumperProvider, JSONSchemaProvider, MorphingProvider
+from .provider_template import DumperProvider, JSONSchemaProvider, LoaderProvider, MorphingProvider
 from .request_cls import DumperRequest, LoaderRequest, StrictCoercionRequest
 
 
@@ -427,6 +427,36 @@ class ScalarProvider(MorphingProvider, Generic[T]):
 
     def _generate_json_schema(self, mediator: Mediator, request: JSONSchemaRequest) -> JSONSchema:
         return self._json_schema
+
+
+class StrConstructorProvider(LoaderProvider):
+    """Provider of loader for types that are constructed from a string (UUID, IP addresses, paths)"""
+
+    def __init__(self, target: type):
+        self._target = target
+        self._loc_stack_checker = create_loc_stack_checker(target)
+
+    def __repr__(self):
+        return f"{type(self).__name__}({self._target})"
+
+    def provide_loader(self, mediator: Mediator, request: LoaderRequest) -> Loader:
+        strict_coercion = mediator.mandatory_provide(StrictCoercionRequest(loc_stack=request.loc_stack))
+        return mediator.cached_call(self._make_loader, strict_coercion=strict_coercion)
+
+    def _make_loader(self, *, strict_coercion: bool):
+        target = self._target
+
+        def str_constructor_loader(data):
+            if strict_coercion and not isinstance(data, str):
+                raise TypeLoadError(str, data)
+            try:
+                return target(data)
+            except ValueError as e:
+                raise ValueLoadError(str(e), data)
+            except (TypeError, AttributeError, LookupError):
+                raise TypeLoadError(str, data)
+
+        return str_constructor_loader
 
 
 def int_strict_coercion_loader(data):
